@@ -13,7 +13,8 @@ import time
 
 ROOT = os.path.dirname(os.path.dirname(os.path.abspath(__file__)))
 REPO = "/repo"
-ENV = dict(os.environ, GOFLAGS="-mod=mod", GOPROXY="off", GOSUMDB="off", GOTOOLCHAIN="local")
+ENV = dict(os.environ, GOFLAGS="-mod=mod", GOPROXY="off", GOSUMDB="off", GOTOOLCHAIN="local",
+           VERIF_EVIDENCE_DIR=os.path.join(ROOT, ".build", "mutant-evidence"), VERIF_REPLAYS_DIR=os.path.join(ROOT, ".build", "mutant-replays"))
 
 # name, file, old, new, checks
 M = [
